@@ -127,6 +127,12 @@ func (res *Result) GetNodeSetResult() ([]xutils.XpathNode, error) {
 		return nil, fmt.Errorf("No result to return for nodeset.")
 	}
 
+	// Unlike the other result types nothing converts to a node-set:
+	// Nodeset() panics for every other kind of value.
+	if !isNodeset(res.value) {
+		return nil, fmt.Errorf("Result is a %s, not a nodeset.",
+			res.value.name())
+	}
 	return res.value.Nodeset("GetNodesetResult"), nil
 }
 
